@@ -28,7 +28,8 @@ type frame struct {
 	caller           *frame
 	fn               *ssa.Function
 	block, prevBlock *ssa.BasicBlock
-	env              map[ssa.Value]value
+	env              []value
+	fi               *fnInfo
 	locals           []value
 	defers           *deferred
 	result           value
@@ -49,10 +50,59 @@ func (fr *frame) get(key ssa.Value) value {
 	case *ssa.Global:
 		return fr.ex.globalAddr(key)
 	}
-	if r, ok := fr.env[key]; ok {
-		return r
+	if i, ok := fr.fi.idx[key]; ok {
+		if r := fr.env[i]; r != nil {
+			return r
+		}
 	}
 	panic(fmt.Sprintf("get: no value for %T: %v in %s", key, key.Name(), fr.fn))
+}
+
+func (fr *frame) set(key ssa.Value, v value) {
+	if v == nil {
+		v = nilResult{}
+	}
+	fr.env[fr.fi.idx[key]] = v
+}
+
+// nilResult marks an SSA value that was computed and is "no value" (calls of
+// functions without results).
+type nilResult struct{}
+
+type fnInfo struct {
+	idx map[ssa.Value]int32
+	n   int
+}
+
+func (sh *shared) fnInfoOf(fn *ssa.Function) *fnInfo {
+	if fi, ok := sh.fnInfos.Load(fn); ok {
+		return fi.(*fnInfo)
+	}
+	fi := &fnInfo{idx: map[ssa.Value]int32{}}
+	add := func(v ssa.Value) {
+		if _, ok := fi.idx[v]; !ok {
+			fi.idx[v] = int32(fi.n)
+			fi.n++
+		}
+	}
+	for _, p := range fn.Params {
+		add(p)
+	}
+	for _, fv := range fn.FreeVars {
+		add(fv)
+	}
+	for _, l := range fn.Locals {
+		add(l)
+	}
+	for _, b := range fn.Blocks {
+		for _, in := range b.Instrs {
+			if v, ok := in.(ssa.Value); ok {
+				add(v)
+			}
+		}
+	}
+	act, _ := sh.fnInfos.LoadOrStore(fn, fi)
+	return act.(*fnInfo)
 }
 
 func (fr *frame) runDefer(d *deferred) {
@@ -112,26 +162,26 @@ func (ex *Exec) visitInstr(fr *frame, instr ssa.Instruction) int {
 	case *ssa.DebugRef:
 
 	case *ssa.UnOp:
-		fr.env[instr] = ex.unop(instr, fr.get(instr.X))
+		fr.set(instr, ex.unop(instr, fr.get(instr.X)))
 
 	case *ssa.BinOp:
-		fr.env[instr] = ex.binop(instr.Op, instr.X.Type(), fr.get(instr.X), fr.get(instr.Y))
+		fr.set(instr, ex.binop(instr.Op, instr.X.Type(), fr.get(instr.X), fr.get(instr.Y)))
 
 	case *ssa.Call:
 		fn, args := ex.prepareCall(fr, &instr.Call)
-		fr.env[instr] = ex.call(fr, instr.Pos(), fn, args)
+		fr.set(instr, ex.call(fr, instr.Pos(), fn, args))
 
 	case *ssa.ChangeInterface:
-		fr.env[instr] = fr.get(instr.X)
+		fr.set(instr, fr.get(instr.X))
 
 	case *ssa.ChangeType:
-		fr.env[instr] = fr.get(instr.X)
+		fr.set(instr, fr.get(instr.X))
 
 	case *ssa.Convert:
-		fr.env[instr] = ex.conv(instr.Type(), instr.X.Type(), fr.get(instr.X))
+		fr.set(instr, ex.conv(instr.Type(), instr.X.Type(), fr.get(instr.X)))
 
 	case *ssa.MultiConvert:
-		fr.env[instr] = ex.conv(instr.Type(), instr.X.Type(), fr.get(instr.X))
+		fr.set(instr, ex.conv(instr.Type(), instr.X.Type(), fr.get(instr.X)))
 
 	case *ssa.SliceToArrayPointer:
 		s := fr.get(instr.X).(slice)
@@ -140,23 +190,23 @@ func (ex *Exec) visitInstr(fr *frame, instr ssa.Instruction) int {
 			rtPanic(ex, "cannot convert slice to array pointer: length too short")
 		}
 		if s.b == nil {
-			fr.env[instr] = (*value)(nil)
+			fr.set(instr, (*value)(nil))
 		} else {
 			if s.b.paged {
 				unsupported("slice->array pointer of paged backing")
 			}
 			v := value(array(s.b.elems[s.off : s.off+int(at.Len())]))
-			fr.env[instr] = &v
+			fr.set(instr, &v)
 		}
 
 	case *ssa.MakeInterface:
-		fr.env[instr] = iface{t: instr.X.Type(), v: fr.get(instr.X)}
+		fr.set(instr, iface{t: instr.X.Type(), v: fr.get(instr.X)})
 
 	case *ssa.Extract:
-		fr.env[instr] = fr.get(instr.Tuple).(tuple)[instr.Index]
+		fr.set(instr, fr.get(instr.Tuple).(tuple)[instr.Index])
 
 	case *ssa.Slice:
-		fr.env[instr] = ex.sliceOp(instr, fr.get(instr.X), fr.get(instr.Low), fr.get(instr.High), fr.get(instr.Max))
+		fr.set(instr, ex.sliceOp(instr, fr.get(instr.X), fr.get(instr.Low), fr.get(instr.High), fr.get(instr.Max)))
 
 	case *ssa.Return:
 		switch len(instr.Results) {
@@ -214,15 +264,15 @@ func (ex *Exec) visitInstr(fr *frame, instr ssa.Instruction) int {
 		ex.spawn(fn, args, instr.Pos())
 
 	case *ssa.MakeChan:
-		fr.env[instr] = ex.newChan(int(ex.asInt(fr.get(instr.Size))))
+		fr.set(instr, ex.newChan(int(ex.asInt(fr.get(instr.Size)))))
 
 	case *ssa.Alloc:
 		var addr *value
 		if instr.Heap {
 			addr = new(value)
-			fr.env[instr] = addr
+			fr.set(instr, addr)
 		} else {
-			addr = fr.env[instr].(*value)
+			addr = fr.get(instr).(*value)
 		}
 		*addr = zero(deref(instr.Type()))
 
@@ -238,7 +288,7 @@ func (ex *Exec) visitInstr(fr *frame, instr ssa.Instruction) int {
 		tElt := instr.Type().Underlying().(*types.Slice).Elem()
 		if c > 1<<16 {
 			if bk, ok := tElt.Underlying().(*types.Basic); ok && bk.Kind() == types.Uint8 {
-				fr.env[instr] = slice{b: newPaged(c), len: l, cap: c}
+				fr.set(instr, slice{b: newPaged(c), len: l, cap: c})
 				break
 			}
 		}
@@ -246,40 +296,40 @@ func (ex *Exec) visitInstr(fr *frame, instr ssa.Instruction) int {
 		for i := range s {
 			s[i] = zero(tElt)
 		}
-		fr.env[instr] = slice{b: &backing{elems: s}, len: l, cap: c}
+		fr.set(instr, slice{b: &backing{elems: s}, len: l, cap: c})
 
 	case *ssa.MakeMap:
-		fr.env[instr] = newOmap(instr.Type().Underlying().(*types.Map).Key())
+		fr.set(instr, newOmap(instr.Type().Underlying().(*types.Map).Key()))
 
 	case *ssa.Range:
-		fr.env[instr] = ex.rangeIter(fr.get(instr.X))
+		fr.set(instr, ex.rangeIter(fr.get(instr.X)))
 
 	case *ssa.Next:
-		fr.env[instr] = fr.get(instr.Iter).(iter).next()
+		fr.set(instr, fr.get(instr.Iter).(iter).next())
 
 	case *ssa.FieldAddr:
 		p := fr.get(instr.X).(*value)
 		if p == nil {
 			rtPanic(ex, "invalid memory address or nil pointer dereference")
 		}
-		fr.env[instr] = &(*p).(structure)[instr.Field]
+		fr.set(instr, &(*p).(structure)[instr.Field])
 
 	case *ssa.Field:
-		fr.env[instr] = copyVal(fr.get(instr.X).(structure)[instr.Field])
+		fr.set(instr, copyVal(fr.get(instr.X).(structure)[instr.Field]))
 
 	case *ssa.IndexAddr:
 		x := fr.get(instr.X)
 		switch x := x.(type) {
 		case slice:
 			i := ex.indexIn(fr.get(instr.Index), x.len)
-			fr.env[instr] = x.at(i)
+			fr.set(instr, x.at(i))
 		case *value:
 			if x == nil {
 				rtPanic(ex, "invalid memory address or nil pointer dereference")
 			}
 			a := (*x).(array)
 			i := ex.indexIn(fr.get(instr.Index), len(a))
-			fr.env[instr] = &a[i]
+			fr.set(instr, &a[i])
 		default:
 			panic(fmt.Sprintf("unexpected x type in IndexAddr: %T", x))
 		}
@@ -289,13 +339,13 @@ func (ex *Exec) visitInstr(fr *frame, instr ssa.Instruction) int {
 		switch x := x.(type) {
 		case array:
 			i := ex.indexIn(fr.get(instr.Index), len(x))
-			fr.env[instr] = copyVal(x[i])
+			fr.set(instr, copyVal(x[i]))
 		case string:
 			i := ex.indexIn(fr.get(instr.Index), len(x))
-			fr.env[instr] = x[i]
+			fr.set(instr, x[i])
 		case symString:
 			i := ex.indexIn(fr.get(instr.Index), len(x.b))
-			fr.env[instr] = x.b[i]
+			fr.set(instr, x.b[i])
 		default:
 			panic(fmt.Sprintf("unexpected x type in Index: %T", x))
 		}
@@ -305,32 +355,32 @@ func (ex *Exec) visitInstr(fr *frame, instr ssa.Instruction) int {
 		switch xs := x.(type) {
 		case string:
 			i := ex.indexIn(fr.get(instr.Index), len(xs))
-			fr.env[instr] = xs[i]
+			fr.set(instr, xs[i])
 		case symString:
 			i := ex.indexIn(fr.get(instr.Index), len(xs.b))
-			fr.env[instr] = xs.b[i]
+			fr.set(instr, xs.b[i])
 		default:
-			fr.env[instr] = ex.lookup(instr, x, fr.get(instr.Index))
+			fr.set(instr, ex.lookup(instr, x, fr.get(instr.Index)))
 		}
 
 	case *ssa.MapUpdate:
 		ex.mapInsert(fr.get(instr.Map).(*omap), fr.get(instr.Key), copyVal(fr.get(instr.Value)))
 
 	case *ssa.TypeAssert:
-		fr.env[instr] = ex.typeAssert(instr, fr.get(instr.X).(iface))
+		fr.set(instr, ex.typeAssert(instr, fr.get(instr.X).(iface)))
 
 	case *ssa.MakeClosure:
 		var bindings []value
 		for _, binding := range instr.Bindings {
 			bindings = append(bindings, fr.get(binding))
 		}
-		fr.env[instr] = &closure{instr.Fn.(*ssa.Function), bindings}
+		fr.set(instr, &closure{instr.Fn.(*ssa.Function), bindings})
 
 	case *ssa.Phi:
 		panic("unreachable: phi")
 
 	case *ssa.Select:
-		fr.env[instr] = ex.selectOp(fr, instr)
+		fr.set(instr, ex.selectOp(fr, instr))
 
 	default:
 		panic(fmt.Sprintf("unexpected instruction: %T", instr))
@@ -440,18 +490,19 @@ func (ex *Exec) callSSA(caller *frame, callpos token.Pos, fn *ssa.Function, args
 	}
 	ex.noteCall(fn)
 
-	fr.env = make(map[ssa.Value]value, len(fn.Params)+8)
+	fr.fi = ex.sh.fnInfoOf(fn)
+	fr.env = make([]value, fr.fi.n)
 	fr.block = fn.Blocks[0]
 	fr.locals = make([]value, len(fn.Locals))
 	for i, l := range fn.Locals {
 		fr.locals[i] = zero(deref(l.Type()))
-		fr.env[l] = &fr.locals[i]
+		fr.set(l, &fr.locals[i])
 	}
 	for i, p := range fn.Params {
-		fr.env[p] = args[i]
+		fr.set(p, args[i])
 	}
 	for i, fv := range fn.FreeVars {
-		fr.env[fv] = env[i]
+		fr.set(fv, env[i])
 	}
 	ex.depth++
 	defer func() { ex.depth-- }()
@@ -543,7 +594,7 @@ func executePhis(fr *frame) []ssa.Instruction {
 			fr.phitemps = append(fr.phitemps, fr.get(phi.Edges[predIndex]))
 		}
 		for i, phi := range phis {
-			fr.env[phi.(*ssa.Phi)] = fr.phitemps[i]
+			fr.set(phi.(*ssa.Phi), fr.phitemps[i])
 		}
 	}
 	return nonPhis
